@@ -20,6 +20,8 @@ type FunctionBuilder struct {
 	fset    *token.FileSet    // The fileset used to read the method.
 	pkg     *packages.Package // The package where the method belongs.
 	imports util.ImportNames  // The import names to be used.
+
+	generated map[string]token.Pos // The functions generated so far in this run, by name.
 }
 
 // NewFunctionBuilder is a constructor that returns a new instance of
@@ -92,6 +94,15 @@ func (p *FunctionBuilder) CreateFunction(m *bmodel.MethodEntry) (*gmodel.Functio
 			return nil, logger.Errorf("%v: cannot generate function %v, the package already declares it at %v",
 				p.fset.Position(m.Method.Pos()), name, p.fset.Position(obj.Pos()))
 		}
+		// Nor can two converter interfaces both yield a function of that name.
+		if pos, ok := p.generated[name]; ok {
+			return nil, logger.Errorf("%v: cannot generate function %v, it is already generated for the method at %v",
+				p.fset.Position(m.Method.Pos()), name, p.fset.Position(pos))
+		}
+		if p.generated == nil {
+			p.generated = map[string]token.Pos{}
+		}
+		p.generated[name] = m.Method.Pos()
 	}
 
 	srcDefName := "src"
